@@ -1195,6 +1195,8 @@ class Gen:
         self.ops = []
         self.tag = 0
         self.ids = rng.sample(range(1, 900), 200)
+        if rng.random() < 0.6:
+            self.ids.insert(len(self.ids) - rng.randrange(0, 3), 0)     # identifier 0 is a valid identifier
         self.nbase = {0: 0, 1: 0}          # next file name per directory
         self.nout = 0
         self.plan = {}                      # path -> (sig, ident)
@@ -1631,7 +1633,7 @@ def make_stores(n, ident, sizes=None, start_tag=1, directory=0, first_base=0):
         paths.append(p)
         ops.append(dict(op='create', p=p, cache=2))
         for _ in range((sizes or [2] * n)[j]):
-            ops.append(A(tag=t, fid=(1000 - t) if ident else None))
+            ops.append(A(tag=t, fid=(0 if (t == 2 and start_tag == 1) else 1000 - t) if ident else None))
             t += 1
         ops.append(dict(op='close'))
     return ops, paths, t
@@ -1650,7 +1652,7 @@ def crash_scenarios(max_inputs):
                     ops += [dict(op='open_r', p=p, cache=1), dict(op='iter'), dict(op='close')]
                 ops += [dict(op='open_r', p=[0, 50, 1], cache=1), dict(op='len'), dict(op='iter')]
                 if ident:                             # a complete identified store resolves every identifier
-                    ops += [dict(op='get_flight', id=1000 - 1), dict(op='get_flight', id=3)]
+                    ops += [dict(op='get_flight', id=1000 - 1), dict(op='get_flight', id=0), dict(op='get_flight', id=3)]
                 ops.append(dict(op='close'))
                 out.append({'name': f'crash:n{n}:{"id" if ident else "noid"}:call{k}', 'ops': ops})
     return out
@@ -1941,7 +1943,8 @@ def assoc_split_history(rng, base_sizes=None, assoc_sizes=None, ident=None):
     rng.shuffle(idxs)
     ops += [dict(op='get', i=i) for i in idxs]
     if ident:
-        ops += [dict(op='get_flight', id=1000 - 1), dict(op='get_flight', id=1000 - total), dict(op='get_flight', id=3)]
+        ops += [dict(op='get_flight', id=1000 - 1), dict(op='get_flight', id=0), dict(op='get_flight', id=1000 - total),
+                dict(op='get_flight', id=3)]
     ops += [dict(op='iter'), dict(op='get', i=rng.randrange(total)), dict(op='close'),
             dict(op='open_r', p=MB, cache=1), dict(op='get', i=0), dict(op='close')]
     return ops
@@ -2054,6 +2057,7 @@ def save_then_lookup_scenarios(chk: Check, rng, n):
         root.mkdir(parents=True, exist_ok=True)
         k = rng.randint(2, 6)
         ids = rng.sample(range(10, 500), k)
+        ids[rng.randrange(k)] = 0
         pre = rng.choice(['sync', 'lookup', 'sync+lookup', 'none'])
         chk.count('save_then_lookup_scenarios:' + pre)
         obs = {}
@@ -2094,6 +2098,7 @@ def exception_in_with_block_scenarios(chk: Check, rng, n):
         root.mkdir(parents=True, exist_ok=True)
         p = root / 's.nc'
         ids = rng.sample(range(10, 500), rng.randint(3, 7))
+        ids[rng.randrange(len(ids))] = 0
         cut = rng.randint(1, len(ids) - 1)
         obs = {}
         try:
